@@ -122,7 +122,7 @@ def gen_shape(rng):
 
 def gen_inputs(tier, rng):
     big = tier == "thorough"
-    n = 1200 if big else 60
+    n = 480 if big else 60
     for i in range(n):
         A = gen_array(rng)
         for op in ("a_tris", "a_up", "a_nbr"):
